@@ -18,6 +18,10 @@ claimed = {
    text="Every distinct parameterized string of every registered description (enumerated from the real init functions) and every sequence tcell hard-codes is evaluated by the REAL TParm with all nine parameters fully symbolic (64-bit vectors, every path) and compared path by path with a reference terminfo(5) evaluator written from the manual page; the real code's index/nil/division obligations along those evaluations are discharged too. Static variables are checked across two calls. Complete for those programs over all integers, not a sample.",
    note="Assumed: the reference evaluator (govc/ref_terminfo.go) is the oracle; Sprintf/Itoa renderings compared as opaque pieces by their arguments. The clause about ARBITRARY well-formed strings is only covered by a fixed grammar corpus of 32 programs (bounded stand-in, listed in the evidence, not counted as proved); robustness on malformed byte strings (no panic/hang for all inputs) is not proved (TParm's main loop has no inductive invariant).",
    technique="contract-based deductive verification, evaluation rule: complete symbolic evaluation of the real TParm on each concrete program against a reference semantics; z3/cvc5 for the per-path equalities", ref="6 (C07)"),
+ "C14": dict(cat="proof",
+   text="The registry is obtained by evaluating the real init functions and AddTerminfo; for every registered entry and alias: resolution, a cup string, colour count consistent with setaf/setab, every parameterized string well-formed per the terminfo(5) grammar and using only parameters the library supplies, key table (built by the real prepareKeys) prefix-free. The real LookupTerminfo is evaluated on every registered name, every synthesised -256color/-truecolor variant and unknown names with a SYMBOLIC environment (all COLORTERM / TCELL_TRUECOLOR values): result is the specified entry or ErrTermNotFound, direct colour on/off exactly as documented, standard 256-colour strings when synthesised, and no registered entry is modified by any lookup (the per-call frame condition that makes results independent of lookup history).",
+   note="Assumed: terminfo(5) grammar, per-capability parameter counts and the standard colour strings are the oracle (tables in govc/c14.go); quick tier evaluates every unregistered/synthesised name and one third of the registered names, thorough all; the infocmp-based dynamic loader is outside the verifier's reach.",
+   technique="contract-based deductive verification, evaluation rule over the concrete registry with symbolic environment; frame condition checked per lookup", ref="6 (C14)"),
  "C15": dict(cat="proof",
    text="For every registered description the REAL TGoto(col,row) and TColor(fg,bg) are evaluated with fully symbolic 64-bit arguments and proved equal, on every path, to the reference terminfo(5) evaluation of that description's own cup / setaf / setab strings with (row,col) resp. the folded and range-checked colour (bright colours folded iff Colors==8, component elided iff negative or >= Colors).",
    note="Assumed: the reference terminfo(5) evaluator is the oracle and cup takes (row, column); TPuts padding stripping is not under contract yet (that clause of C15 is not claimed); 'the convention can express' is taken as what the description's own cup string defines.",
